@@ -191,6 +191,46 @@ pub fn contention_programs(_thorough: bool) -> Vec<Program> {
         threads: vec![vec![ins(K, V2B), Op::Flush], vec![Op::Get(K)]],
         observe: vec![K],
     });
+    // failing device: every write / every fsync / one batch (three attempts) fails
+    for fam in ["fault-writes", "fault-fsyncs", "fault-data3"] {
+        v.push(Program {
+            name: format!("{fam}:write;flush;flush|get"),
+            cfg,
+            tables: t.clone(),
+            setup: vec![ins(K, V1), Op::Flush],
+            threads: vec![vec![ins(K, V1B), Op::Flush, Op::Flush], vec![Op::Get(K)]],
+            observe: vec![K],
+        });
+        v.push(Program {
+            name: format!("{fam}:write;flush|write;flush"),
+            cfg,
+            tables: t.clone(),
+            setup: vec![],
+            threads: vec![vec![ins(K, V1), Op::Flush], vec![ins(U, VU1), Op::Flush]],
+            observe: vec![K, U],
+        });
+    }
+    // two workers (two shards): one worker's batch fails while the other allocates
+    let mut two = small(true, false, 8);
+    two.workers = 2;
+    for fam in ["fault-data3", "contend2w"] {
+        v.push(Program {
+            name: format!("{fam}:2workers:write k;write u;flush"),
+            cfg: two,
+            tables: t.clone(),
+            setup: vec![],
+            threads: vec![vec![ins(K, V1), ins(U, VU1), Op::Flush]],
+            observe: vec![K, U],
+        });
+        v.push(Program {
+            name: format!("{fam}:2workers:write k;flush|write u;flush"),
+            cfg: two,
+            tables: t.clone(),
+            setup: vec![],
+            threads: vec![vec![ins(K, V1), Op::Flush], vec![ins(U, VU1), Op::Flush]],
+            observe: vec![K, U],
+        });
+    }
     // reader inside a read while flush retires
     v.push(Program {
         name: "contend:reader|delete;flush;flush".into(),
